@@ -47,7 +47,7 @@ type RaceCase struct {
 	Reuse     bool     `json:"reuse"` // serve the same Service object again in every round (else a fresh one)
 }
 
-var raceKinds = []string{"shutdown", "getlistener", "register", "client", "client-hold", "call-cancel", "more", "upgrade-io", "ctx-cancel"}
+var raceKinds = []string{"shutdown", "getlistener", "register", "client", "client-hold", "call-cancel", "call-deadline", "more", "upgrade-io", "ctx-cancel"}
 
 // ---------------------------------------------------------------------------
 // child side
@@ -239,6 +239,27 @@ func runRaceOp(op RaceOp, svc *varlink.Service, addr string, cancelServe context
 			c.Call(ctx, "x.y.Silent", json.RawMessage(`{"conn":0,"id":2,"script":[]}`), &out)
 			cancel()
 			// the connection is used again by the same goroutine
+			ctx2, cancel2 := context.WithTimeout(context.Background(), 20*time.Millisecond)
+			c.GetInfo(ctx2, nil, nil, nil, nil, nil)
+			cancel2()
+			c.Close()
+		}
+	case "call-deadline":
+		for i := 0; i < n; i++ {
+			c := dial()
+			if c == nil {
+				return
+			}
+			// the same goroutine lets several calls expire by DEADLINE on one connection, then uses it again
+			recv, err := c.Send(context.Background(), "x.y.Silent", json.RawMessage(`{"conn":0,"id":5,"script":[]}`), 0)
+			if err == nil {
+				for k := 0; k < 3; k++ {
+					ctx, cancel := context.WithTimeout(context.Background(), time.Duration(200+150*k)*time.Microsecond)
+					var out json.RawMessage
+					recv(ctx, &out)
+					cancel()
+				}
+			}
 			ctx2, cancel2 := context.WithTimeout(context.Background(), 20*time.Millisecond)
 			c.GetInfo(ctx2, nil, nil, nil, nil, nil)
 			cancel2()
